@@ -151,7 +151,7 @@ decoded value — `decodeMsg` is the first projection of `decodeMsgG`). -/
 structure Ghost where
   /-- a ping/pong padding byte was not zero (`ZeroBytes::decode` does not look at the bytes) -/
   padNonZero : Bool := false
-  /-- the user agent of a node announcement was missing or cut short and replaced by the default -/
+  /-- the user agent of a node announcement was missing and replaced by the default -/
   agentDefaulted : Bool := false
   deriving Repr, DecidableEq
 
@@ -207,15 +207,14 @@ whether one of them was not zero. -/
 def zeroBytesG : Dec (Nat × Bool) :=
   u16.bind fun n => (take n).map fun pad => (n, pad.any (· ≠ 0))
 
-/-- The trailing user agent of a node announcement: `Err(e) if e.is_eof() => UserAgent::default()`.
-Running out of bytes anywhere inside the string (no length byte, or fewer bytes than it says) yields the
-default; the reader is exhausted at that point. -/
+/-- The trailing user agent of a node announcement (as of `fix:` 7273931). It is optional — older nodes do
+not send it — and counts as absent only if NOTHING follows the nonce (`reader.read(&mut first)? == 0`), in
+which case `UserAgent::default()` is used. Otherwise the string is decoded normally: a user agent that is
+cut short is `incomplete` (an EOF error: `wire::deserialize` fails, a gossip frame reports `invalid`). -/
 def agentOrDefault : Dec (Bytes × Bool) := fun b =>
-  match agent b with
-  | .ok ua r => .ok (ua, false) r
-  | .incomplete => .ok (defaultAgent, true) []
-  | .invalid => .invalid
-  | .panic s => .panic s
+  match b with
+  | [] => .ok (defaultAgent, true) []
+  | _ :: _ => agent.map (fun ua => (ua, false)) b
 
 def ADDRESS_LIMIT : Nat := 16
 def REF_REMOTE_LIMIT : Nat := 1024
